@@ -121,6 +121,7 @@ struct Exec {
     bool coh = a->buffer_data() == cb.data() && a->buffer_capacity() == cb.capacity() &&
                a->remaining_space() == cb.capacity() - a->offset() && a->buffer_ptr() == a->buffer_data() + a->offset() &&
                a->buffer_end() == a->buffer_data() + a->buffer_capacity();
+    if (size > 64 * kMaxTotal) { w.kv("off", -1).kv("size", -1).kv("cap", -1).kv("coh", false).kv("nrel", 0).kv("nfix", 0); return; }
     w.kv("off", a->offset()).kv("size", size).kv("cap", cb.capacity()).kv("coh", coh)
      .kv("nrel", code.reloc_entries().size()).kv("nfix", code.unresolved_fixup_count())
      .kv("dig", digest(cb.data(), size));
@@ -128,7 +129,8 @@ struct Exec {
   }
   void app_bytes(size_t off0) {
     size_t off1 = a->offset();
-    if (off1 >= off0 && off1 <= a->buffer_capacity()) w.bytes("app", a->buffer_data() + off0, off1 - off0);
+    // (a window larger than anything this harness asks for is not dumped: the reported offset alone gets it rejected)
+    if (off1 >= off0 && off1 <= a->buffer_capacity() && off1 - off0 <= 4 * kMaxTotal) w.bytes("app", a->buffer_data() + off0, off1 - off0);
     else w.bytes("app", nullptr, 0);
   }
   void label_state(const char* k, const Label& L) {
@@ -364,7 +366,8 @@ struct Exec {
     w.key("imgs").beginArr();
     for (Section* s : ss) {
       w.beginArr();
-      for (size_t i = 0; i < s->buffer().size(); i++) w.val((long long)s->buffer().data()[i]);
+      if (s->buffer().size() <= 8 * kMaxTotal)
+        for (size_t i = 0; i < s->buffer().size(); i++) w.val((long long)s->buffer().data()[i]);
       w.endArr();
     }
     w.endArr();
